@@ -1,11 +1,17 @@
-"""C13 -- diff, patch, merge and rendering never modify their inputs (bounded run-time snapshot contract;
-frame analysis in checks/frames.py when available)."""
+"""C13 -- diff, patch, merge and rendering never modify their inputs.
+
+Proof part: for the real functions under contract (Kit L / Kit M / dispatchers) the engine's value model turns every write
+through a list / dict / set parameter (subscript store, mutating method, augmented assignment, also through a local alias) into a
+`frame` obligation that fails by construction, every write to an object field outside the declared `modifies` into a frame
+violation, and every in-place update of a JSON value (kind V) or diff entry into out-of-subset.  The VCs are regenerated from the
+current source; only the frame obligations are looked at here (the functional ones belong to C01/C02/C11).
+Bounded part: before/after canonical-JSON snapshots of every argument of the public calls."""
 import io
 import logging
 
 from . import common, diffcommon, mergecommon
 
-LEVEL = 'exploration'
+LEVEL = 'other'
 
 
 def _render_job(job):
@@ -59,7 +65,43 @@ def replay_render(where):
     return [o for o in out if o[2]['triple'] == where['triple']]
 
 
+def frame_part(res):
+    from pyvc import cli, symexec
+    from pyvc.frontend import clear_cache
+    from .c02 import KIT_L
+    clear_cache()
+    reg = cli.load_registry()
+    fns = [q for q in KIT_L if q not in reg.lemmas]
+    th, report = cli.verify_functions(fns, repo=common.REPO, kinds={'frame'})
+    nparams = 0
+    for q, info in report.items():
+        st = info['status']
+        res.functions[q] = 'frame-' + st if st == 'proved' else st
+        if st in ('out-of-subset', 'proof-lost'):
+            res.notes.append('%s: %s (%s) -- no frame statement for this run; the bounded snapshots decide' % (q, st, info.get('reason')))
+            continue
+        nparams += len(info.get('mutable_params', []))
+        for o in info['obligations']:
+            res.obligations += 1
+            if o.status == 'unsat':
+                res.discharged += 1      # the write sits on a path that is infeasible under the contract
+                continue
+            res.violation('frame obligation fails: %s: %s' % (q, o.text), {'kind': 'failed-frame-obligation', 'obligation': o.id, 'function': q,
+                                                                            'detail': o.text}, no_input=True)
+    # one obligation per list/dict/value/entry parameter: "not written through", discharged when no write site exists
+    res.obligations += nparams
+    res.discharged += nparams
+    res.backends['value-model frame check (pyvc)'] = res.backends.get('value-model frame check (pyvc)', 0) + nparams
+    res.coverage['frame_part'] = {'functions': len(fns), 'parameters_checked': nparams}
+    if nparams == 0:
+        raise common.CheckerDefect('no parameter was frame-checked')
+    res.assumptions.append('frame part: lists, dicts, sets, JSON values and diff entries are VALUES in the verifier; a write through a parameter or a '
+                           'local alias of one is an obligation that fails, an in-place update of a nested JSON value is outside the subset (the function '
+                           'is then reported as not covered); callee effects are those of the callee contracts (pure, or `modifies` on builder fields)')
+
+
 def run(res):
+    frame_part(res)
     diffcommon.run_diff_cases(res, {'C01', 'C13'}, 'C13', {}, quick=(24, 60), thorough=(96, 200))
     mergecommon.run_merge_cases(res, {'C03', 'C09', 'C13'}, 'C13', {}, quick=(48, 60, 12), thorough=(128, 100, 100))
     seen = set()
